@@ -89,9 +89,18 @@ def cases(tier, seed):
             for mac in ['FASTOR_MATMUL_OUTER_BLOCK_SIZE=%d' % n for n in (1, 2, 3, 4, 5)] + ['FASTOR_MATMUL_INNER_BLOCK_SIZE=%d' % n for n in (1, 2, 3, 4, 5)]:
                 cfgm = Cfg(isa, 'c++14', macros=(mac,))
                 V = vec_elems(isa, FLT)
-                for (M, K, N) in [(7, 3, 2 * V + 3), (5, 4, V), (6, 5, 3 * V + 1), (3, 2, 5 * V + 1), (2, 3, 6 * V)]:
+                for (M, K, N) in [(7, 3, 2 * V + 3), (5, 4, V), (6, 5, 3 * V + 1), (3, 2, 5 * V + 1), (2, 3, 6 * V), (5, 2, 5 * V + 1)]:
                     out.append(matmul_case(FLT, M, K, N, cfgm, 'own'))
                     if thorough: out.append(matmul_case(INT, M, K, N, cfgm, 'own'))
+        # ... and shapes whose interior block [4*OUTER rows] x [INNER*V columns] of the generic kernel is reached at the
+        # configured size (SSE2 double, V=2, keeps them small): one full block plus a remainder row and column
+        if isa == 'sse2':
+            for k in (1, 2, 3, 4, 5):
+                for (mac, shapes) in (('FASTOR_MATMUL_INNER_BLOCK_SIZE=%d' % k, [(9, 2, 2 * k + 1), (8, 3, 4 * k + 1)]),
+                                      ('FASTOR_MATMUL_OUTER_BLOCK_SIZE=%d' % k, [(4 * k + 1, 2, 5), (8 * k + 1, 2, 7)])):
+                    for (M, K, N) in shapes:
+                        if k > 3 and mac.startswith('FASTOR_MATMUL_OUTER') and M > 4 * k + 1: continue
+                        out.append(matmul_case(DBL, M, K, N, Cfg(isa, 'c++14', macros=(mac,)), 'own'))
     seen = set(); res = []
     for c in out:
         if c.cid not in seen: seen.add(c.cid); res.append(c)
